@@ -30,6 +30,7 @@
 -/
 import LtVerif.Proofs.Cond
 import LtVerif.Proofs.SockAddr
+import LtVerif.Proofs.CondSimplify
 namespace LtVerif.C14
 open LtVerif B LtVerif.Cond LtVerif.SockAddr
 
@@ -283,5 +284,112 @@ example : addrEqBits (.v4 [10, 0, 0, 0]) (.v4 [11, 0, 0, 1]) 8 = false := by dec
 example : addrEqBits (.v4 [10, 0, 0, 0]) (.v6 [0,0,0,0,0,0,0,0,0,0,0xff,0xff,10,1,2,3]) 8 = true := by decide
 example : addrEqBits (.v6 [0,0,0,0,0,0,0,0,0,0,0xff,0xff,10,1,2,0]) (.v4 [10,1,2,77]) 120 = true := by decide
 example : isV4Mapped (v4mapped [10, 1, 2, 3]) = true := by decide
+
+/-! ## 6. `=~` conditions rewritten by the parser (configparser_simplify_regex) and turned back
+   into a regex by config_finalize() keep the meaning of the condition as written
+   (`Plain`, `litRegex`, `regexText`, `Simplified` in Proofs/CondSimplify.lean) -/
+
+/-- For EVERY regex string `b` of a `=~` condition: if configparser_simplify_regex() replaces it
+    (result `(cond, str)` with `cond ≠ MATCH`), then `b` is the text `^`? literal `$`? of an
+    anchored literal regular expression (regex characters escaped: the `\.ext$` case), and the
+    block's condition as STORED (`=^`, `=$`, `==` on `str`) holds for a request iff that regular
+    expression matches the request's attribute — for every request and every field except that
+    `==` is a different comparison on host and remote address (see the next theorem). -/
+theorem c14_simplify_regex_preserves (b : Bytes) (nd : Node) (e : Env)
+    (hs : simplifyRegex b = (nd.cond, nd.str)) (hc : nd.cond ≠ .match_) (hu : nd.comp ≠ .unset)
+    (hh : nd.cond = .eq → nd.comp ≠ .host ∧ nd.comp ≠ .remoteIp) :
+    ∃ bol body eol, b = regexText bol body eol ∧ (∀ x ∈ body, x ≠ 0) ∧
+      evalLocal nd e = (litRegex bol body eol).matches (attr nd e) := by
+  have hsh := simplifyRegex_shape b nd.cond nd.str hs hc
+  generalize hcd : nd.cond = c at hsh hh
+  generalize hst : nd.str = s at hsh
+  cases hsh with
+  | pre s hp =>
+    refine ⟨true, s, false, ?_, fun x hx => (hp x hx).1, ?_⟩
+    · unfold regexText; rw [flatMap_plain s hp]; simp
+    · rw [litRegex_matches]; simp [evalLocal, hcd, hu, hst]
+  | exact s hp =>
+    refine ⟨true, s, true, ?_, fun x hx => (hp x hx).1, ?_⟩
+    · unfold regexText; rw [flatMap_plain s hp]; simp
+    · rw [litRegex_matches]
+      obtain ⟨h1, h2⟩ := hh rfl
+      simp [evalLocal, hcd, hu, eqLike, h1, h2, hst]
+  | suf s hp =>
+    refine ⟨false, s, true, ?_, fun x hx => (hp x hx).1, ?_⟩
+    · unfold regexText; rw [flatMap_plain s hp]; simp
+    · rw [litRegex_matches]; simp [evalLocal, hcd, hu, hst]
+  | ext s hp =>
+    refine ⟨false, 46 :: s, true, ?_, ?_, ?_⟩
+    · unfold regexText; rw [List.flatMap_cons, flatMap_plain s hp]; simp [regexChars]
+    · intro x hx
+      rcases List.mem_cons.mp hx with rfl | hx
+      · decide
+      · exact (hp x hx).1
+    · rw [litRegex_matches]; simp [evalLocal, hcd, hu, hst]
+
+/-- The exception is real (upstream behaviour, candidate known finding):
+    `$HTTP["host"] =~ "^h1$"` is stored as `$HTTP["host"] == "h1"`, and `==` on the host applies
+    the host[:port] rule (`c14_host_port_rule`), so the block holds for `Host: h1:8080`, which
+    the regular expression as written does not match. -/
+theorem c14_simplified_host_eq_matches_port :
+    simplifyRegex (ofString "^h1$") = (.eq, ofString "h1") ∧
+    evalLocal { comp := .host, cond := .eq, str := ofString "h1" } { host := ofString "h1:8080" } = true ∧
+    (litRegex true (ofString "h1") true).matches (ofString "h1:8080") = false := by
+  decide
+
+/-- config_finalize() (blocks whose captures are used by a redirect/rewrite rule): the regex
+    text rebuilt from a simplified condition is exactly the text the configuration had —
+    for every `b` that configparser_simplify_regex() rewrote. -/
+theorem c14_finalize_restores_regex (b : Bytes) (c : CondOp) (s : Bytes)
+    (hs : simplifyRegex b = (c, s)) (hc : c ≠ .match_) :
+    unsimplify c s = (.match_, b) := by
+  cases simplifyRegex_shape b c s hs hc with
+  | pre s hp => simp [unsimplify]
+  | exact s hp => simp [unsimplify]
+  | suf s hp =>
+    have : s.head? ≠ some 46 := by
+      intro h
+      cases s with
+      | nil => simp at h
+      | cons x s =>
+        simp only [List.head?_cons, Option.some.injEq] at h
+        exact absurd (hp x (by simp)).2 (by rw [h]; decide)
+    simp [unsimplify, this]
+  | ext s hp => simp [unsimplify]
+
+/-- Exactly the anchored plain literals are rewritten: configparser_simplify_regex() returns
+    a non-regex condition iff `b` is `^lit`, `^lit$`, `lit$` or `\.lit$` with `lit` free of NUL
+    and of regex characters — and then returns that comparison on `lit` (`.lit`). -/
+theorem c14_simplify_regex_exactly_literals (b : Bytes) (c : CondOp) (s : Bytes) (hc : c ≠ .match_) :
+    simplifyRegex b = (c, s) ↔ Simplified b c s := by
+  constructor
+  · intro h; exact simplifyRegex_shape b c s h hc
+  · intro h
+    cases h with
+    | pre s hp => exact simplifyRegex_pre s hp
+    | exact s hp => exact simplifyRegex_exact s hp
+    | suf s hp => exact simplifyRegex_suf s hp
+    | ext s hp => exact simplifyRegex_ext s hp
+
+example : Simplified (ofString "^/a$") .eq (ofString "/a") :=
+  Simplified.exact (ofString "/a") (by unfold Plain; decide)
+example : simplifyRegex (ofString "^/a") = (.prefix_, ofString "/a") := by decide
+example : simplifyRegex (ofString "\\.php$") = (.suffix, ofString ".php") := by decide
+example : simplifyRegex (ofString "php$") = (.suffix, ofString "php") := by decide
+example : simplifyRegex (ofString "^/a$") = (.eq, ofString "/a") := by decide
+example : simplifyRegex (ofString "^/a/.*\\.php$") = (.match_, ofString "^/a/.*\\.php$") := by decide
+example : simplifyRegex (ofString "^$") = (.eq, []) := by decide
+example : simplifyRegex (ofString "$") = (.suffix, []) := by decide
+example : simplifyRegex (ofString "\\.$") = (.suffix, ofString ".") := by decide
+example : simplifyRegex (ofString "\\$") = (.match_, ofString "\\$") := by decide
+example : unsimplify .suffix (ofString ".php") = (.match_, ofString "\\.php$") := by decide
+/-- hypotheses of `c14_simplify_regex_preserves` on a concrete block: `$HTTP["url"] =~ "\.php$"` -/
+example : simplifyRegex (ofString "\\.php$") =
+    (({ comp := .url, cond := .suffix, str := ofString ".php" } : Node).cond,
+     ({ comp := .url, cond := .suffix, str := ofString ".php" } : Node).str) := by decide
+example : evalLocal { comp := .url, cond := .suffix, str := ofString ".php" } { url := ofString "/x.php" } = true := by
+  decide
+example : (litRegex false (ofString ".php") true).matches (ofString "/x.php") = true := by decide
+example : (litRegex false (ofString ".php") true).matches (ofString "/xaphp") = false := by decide
 
 end LtVerif.C14
